@@ -17,4 +17,18 @@ PROPS = {
         "level_text": "Full-strength theorems for every N in 1..=16 and every 16-bit value (Props/C35.lean: acceptance iff representable, stored value, sign/zero extension of the low N bits, error kind), proved arithmetically (no enumeration of values). The model's Offset functions are compared with Offset::<i16|u16, N>::new/new_trunc/get on every one of the 2*16*65536*2 inputs on every run, so the theorem transfers to the code completely, modulo the harness.",
         "level_note": BASE_NOTE + "Correspondence is exhaustive in both tiers (4,194,304 evaluations).",
     },
+    "C15": {
+        "sub": "c15", "functional": True,
+        "status": "full: not/and/add/sub_sound for all operand pairs and all re-choices of uninitialised bits; full_init",
+        "assumptions": ["operands are built through the verif-hooks accessors (raw data/mask pairs)"],
+        "level_text": "Full-strength theorems (Props/C15.lean): for NOT, AND, ADD, SUB and every pair of words a,b and every a',b' that differ from them only in uninitialised bits, the result mask is identical and every bit reported initialised has the same value (bit-extensional proofs, no enumeration); operations on fully initialised words give fully initialised wrapping results. Correspondence: structured grid + random operand pairs through the real Word operators, result (data, mask) compared with the model; the soundness statement itself is also evaluated on the implementation with 16 re-randomisations per pair.",
+        "level_note": BASE_NOTE + "Correspondence is sampled (grid + random), not exhaustive: 2^64 operand pairs.",
+    },
+    "C06": {
+        "sub": "c06", "functional": True,
+        "status": "full: decode_encode, encode_decode, decode_ok_iff_canonical, decode_illegal_iff, decode_invalid_format_iff, decode_ok_iff_in_range",
+        "assumptions": ["representable instruction = register numbers 0-7, condition code 0-7, offsets within their field (the invariant Offset::new/new_trunc enforce)"],
+        "level_text": "Full-strength theorems (Props/C06.lean) for all 65536 words and all representable instructions, lifted from complete kernel-evaluated tables (decide +kernel over every word / every field combination; no native_decide, no bv_decide): decode succeeds iff the word is canonical per the ISA format table (specValid, written independently), error kinds, decode-then-encode and encode-then-decode identities. The same two exhaustive enumerations run on SimInstr::decode/encode on every check and are compared line by line with the model, so the theorems transfer to the code completely (modulo the harness). Defect F3 (JMP with bit 11 set decoded as JMP) was repaired in /repo (fix: commit 3ea9aa0).",
+        "level_note": BASE_NOTE + "Correspondence is exhaustive in both tiers (65536 words + 49,481 instructions).",
+    },
 }
